@@ -183,7 +183,7 @@ class Prop(PropBase):
         out["chirp_ratio"] = max(ratios)
         out["direct_ratio"] = max(directs) if directs else 0.0
         out["chirp_tol_turns"] = [float((abs(float(K_HZ * dmF * X.q_value(f_c, u.Hz) * (irF - 1 / X.q_value(f_c, u.Hz)) ** 2)) + 1.0)
-                                        * 2.0 ** -48 * 64 + 2.0 ** -20 / (2 * math.pi)) for f_c in z.channel_freqs]
+                                        * 2.0 ** -48 * 160 + 2.0 ** -20 / (2 * math.pi)) for f_c in z.channel_freqs]
         start = math.ceil(-min(0, F(float(dtop)), F(float(dbot))))
         if len(y) > 0:
             Hm = np.stack(Hs, axis=1).reshape((N, case["n"]) + (1,) * (xd.ndim - 2))
